@@ -12,7 +12,7 @@ import (
 // parts). Adjacent tokens may merge in the lexer (`a`+`B` is the name `aB`, `<`+`=` is `<=`,
 // `1`+`.`+`1` is the decimal 1.1): that is wanted, the enumeration is over the strings.
 var vocab = []string{
-	"a", "B", "f(", "1", "1.50", `"s"`, `"q\"\\"`, "\"é\\n\"", "true", "FALSE", "NULL",
+	"a", "B", "f(", "1", "1.50", `"s"`, `"q\"\\"`, "\"é\\n\\\"\"", "true", "FALSE", "NULL",
 	"-", "+", "*", "/", "^", "&", "=", "!=", "<", ">",
 	"(", ")", "[", "]", ".", ",", "=>", " ",
 }
